@@ -321,6 +321,21 @@ def generate(seed, tier):
         sc['until'] = t_c + dpd_max + 20 + 3 + 14.0 + 8
         # no new traffic after the crash (it would create fresh negotiations, which is fine, but keeps the run simple)
         sc['ops'] = [o_ for o_ in sc['ops'] if not (o_['op'] in ('packet', 'expire') and o_['t'] > t_c)]
+    if batch in ('crash', 'idle', 'loss') and r.random() < 0.4:
+        # an off-path sender keeps addressing datagrams to the IKE_SAs it saw on the wire: right SPIs and flags, but nothing in them passes
+        # the integrity check (bare header, Encrypted payload cut off, flipped checksum, unknown exchange).  "Nothing authentic has
+        # arrived": none of it may postpone the DPD probe, the rekey or the give-up
+        every = r.choice([0.45, 0.8, 1.3, 2.0, 2.7])        # also faster than the daemon's 1 s tick
+        t = round(r.uniform(1.0, 4.0), 3)
+        n = 0
+        only = r.choice([None, None, 'flipped', 'short'])      # a steady stream of one kind, or a mix
+        target = r.choice(['A', 'B', None])
+        while t < sc['until']:
+            sc['ops'].append({'t': round(t, 3), 'op': 'call', 'name': 'noise', 'node': target or r.choice('AB'), 'seed': r.randrange(2 ** 31),
+                              'kind': only or r.choice(['bare', 'bare', 'stripped', 'flipped', 'odd_exch', 'as_request', 'short'])})
+            t += every
+            n += 1
+        sc['meta']['noise'] = every
     sc['ops'].sort(key=lambda x: x['t'])
     return sc
 
@@ -364,6 +379,44 @@ def run(scenario):
                 return []            # the request itself never reaches the peer
             rule.label = 'busy_peer'
             ip.rules.append(rule)
+        def noise(w, op):
+            node = w.nodes[op['node']]
+            if node.state != 'running' or node.exited:
+                return
+            rr = random.Random(f'noise:{op["seed"]}')
+            sas = [sa for sa in node.ike_sas() if sa.peer_spi and sa.peer_spi != b'\0' * 8 and sa.my_crypto is not None]
+            if not sas:
+                return
+            sa = sas[rr.randrange(len(sas))]
+            spi_i, spi_r = (sa.my_spi, sa.peer_spi) if sa.is_initiator else (sa.peer_spi, sa.my_spi)
+            kind = op['kind']
+            # what the peer of this IKE_SA would send: its role flag, a plausible Message ID
+            flags = 0 if sa.is_initiator else 0x08
+            mid = sa.peer_msg_id
+            recorded = [x for x in wire.by_sender.get('B' if node.name == 'A' else 'A', []) if x['h'] is not None and x['h']['exch'] != 34
+                        and x['h']['spi_i'] == spi_i and x['h']['spi_r'] == spi_r]
+            import struct
+            if kind in ('stripped', 'flipped') and not recorded:
+                kind = 'bare'
+            if kind == 'bare':
+                d = spi_i + spi_r + bytes([0, 0x20, 37, flags]) + struct.pack('>LL', mid, 28)
+            elif kind == 'as_request':
+                d = spi_i + spi_r + bytes([0, 0x20, rr.choice([35, 36, 37]), flags]) + struct.pack('>LL', mid, 28)
+            elif kind == 'odd_exch':
+                d = spi_i + spi_r + bytes([0, 0x20, rr.choice([38, 43, 5, 240]), flags | rr.choice([0, 0x20])]) + struct.pack('>LL', mid, 28)
+            elif kind == 'short':
+                d = spi_i + spi_r + bytes(rr.getrandbits(8) for _ in range(rr.randrange(0, 11)))
+            elif kind == 'stripped':
+                x = recorded[-1]['data']
+                d = x[:16] + bytes([0]) + x[17:24] + struct.pack('>L', 28)
+            else:
+                x = bytearray(recorded[-1]['data'])
+                x[-1 - rr.randrange(min(12, len(x) - 28))] ^= 1 << rr.randrange(8)
+                d = bytes(x)
+            orc._r('noise.' + kind)
+            src = str(sa.peer_addr)
+            w.net.inject(d, src, str(sa.my_addr), 0.0, 'noise.' + kind)
+        ctx['handlers'] = {'noise': noise}
         cr = scenario.get('crash')
         # (the clause follows the operation, not the metadata: minimisation may have removed the crash / partition itself)
         if cr and not any(o_['op'] in ('crash', 'partition') and o_['t'] == cr['t'] for o_ in scenario['ops']):
